@@ -29,3 +29,42 @@ package searcher
 //@     invariant minBound <= maxBound
 //@     invariant [cover] forall v int64 :: (old(minBound) <= v && v <= old(maxBound)) <==> (cov[v] || (minBound <= v && v <= (maxBound | lowmask(shift))))
 //@     decreases 64 - shift
+
+// ---------------------------------------------------------------------------
+// C07 (and C17): a compound searcher never throws away a pending match of a clause
+// ---------------------------------------------------------------------------
+// lastSome[x] / lastNum[x]: the last call of Next or Advance on searcher x returned a match / its
+// document number. Advance(n) moves PAST that match, so a caller that still needs it (its cursor
+// variable holds it and it is >= n) loses it: the document would be reported without that clause
+// (wrong score, or wrongly rejected). Hence the precondition of Advance.
+//@ ghost var lastSome map[ref]bool
+//@ ghost var lastNum map[ref]uint64
+
+//@ func github.com/blugelabs/bluge/search.Searcher.Next(recv, ctx) (dm, err)
+//@   interface
+//@   props C07 C17
+//@   modifies lastSome, lastNum
+//@   effect forall x ref :: x != iref(recv) ==> (lastSome[x] == old(lastSome)[x] && lastNum[x] == old(lastNum)[x])
+//@   effect err == nil ==> (lastSome[iref(recv)] <==> dm != nil)
+//@   effect (err == nil && dm != nil) ==> lastNum[iref(recv)] == dm.Number
+
+//@ func github.com/blugelabs/bluge/search.Searcher.Advance(recv, ctx, number) (dm, err)
+//@   interface
+//@   props C07 C17
+//@   requires [no-pending-match-skipped] !lastSome[iref(recv)] || lastNum[iref(recv)] < number
+//@   modifies lastSome, lastNum
+//@   effect forall x ref :: x != iref(recv) ==> (lastSome[x] == old(lastSome)[x] && lastNum[x] == old(lastNum)[x])
+//@   effect err == nil ==> (lastSome[iref(recv)] <==> dm != nil)
+//@   effect (err == nil && dm != nil) ==> (lastNum[iref(recv)] == dm.Number && dm.Number >= number)
+
+// the three cursors of a boolean searcher hold exactly the pending match of their clause
+//@ func BooleanSearcher.advanceIfTrailing(ctx, number) (err)
+//@   props C07 C17
+//@   requires s != nil && ctx != nil
+//@   requires [distinct-clauses] (s.mustSearcher == nil || s.shouldSearcher == nil || iref(s.mustSearcher) != iref(s.shouldSearcher)) && (s.mustSearcher == nil || s.mustNotSearcher == nil || iref(s.mustSearcher) != iref(s.mustNotSearcher)) && (s.shouldSearcher == nil || s.mustNotSearcher == nil || iref(s.shouldSearcher) != iref(s.mustNotSearcher))
+//@   requires [must-cursor] s.mustSearcher != nil ==> ((lastSome[iref(s.mustSearcher)] <==> s.currMust != nil) && (s.currMust != nil ==> lastNum[iref(s.mustSearcher)] == s.currMust.Number))
+//@   requires [should-cursor] s.shouldSearcher != nil ==> ((lastSome[iref(s.shouldSearcher)] <==> s.currShould != nil) && (s.currShould != nil ==> lastNum[iref(s.shouldSearcher)] == s.currShould.Number))
+//@   requires [must-not-cursor] s.mustNotSearcher != nil ==> ((lastSome[iref(s.mustNotSearcher)] <==> s.currMustNot != nil) && (s.currMustNot != nil ==> lastNum[iref(s.mustNotSearcher)] == s.currMustNot.Number))
+//@   requires [candidate-is-the-driving-cursor] (s.mustSearcher != nil ==> s.currentMatch == s.currMust) && (s.mustSearcher == nil ==> s.currentMatch == s.currShould)
+//@   requires [called-only-when-trailing] s.currentMatch == nil || s.currentMatch.Number < number
+//@   modifies *
